@@ -84,6 +84,7 @@ fn main() {
             ("C04", "preempt") => preempt_family::worker("C04", start, end, step, arg),
             ("C02", "preempt") => preempt_family::worker("C02", start, end, step, arg),
             ("C02", _) | ("C04", _) => c02::worker(fam, start, end, step, arg),
+            ("C18", "preempt") => preempt_family::worker("C18", start, end, step, arg),
             ("C18", _) => c18::worker(fam, start, end, step, arg),
             ("C11", "preempt") => preempt_family::worker("C11", start, end, step, arg),
             ("C11", _) => c11::worker(fam, start, end, step, arg),
